@@ -288,9 +288,19 @@ def answerTreeOp (root : PNode) (nodes : List Rec) (items : List Item) (op : Str
       match parseCtx c, nat? a, nat? b with
       | some cr, some a, some b =>
         let m := ctxPrecedes root (cr.map (posOfIdx nodes)) (nm == "cfoll") (posOfIdx nodes a) (posOfIdx nodes b)
-        let inS := inScopeOf items cr a && inScopeOf items cr b
+        -- exact F02e region: the walk over the context root's subtree decides wrongly iff exactly one
+        -- operand lies inside and the outside one precedes it, or none lies inside and no operand is
+        -- the document (which would be walked as a document-valued variable)
+        let inA := inScopeOf items cr a
+        let inB := inScopeOf items cr b
+        let isDoc (k : Nat) : Bool := (items[k]?.map fun it => it.kind == .document).getD false
+        let wrong : Bool :=
+          if a == b then false
+          else if inA && inB then false
+          else if inA != inB then (if inA then b < a else a < b)
+          else !(isDoc a || isDoc b)
         let sp := if nm == "cfoll" then specFollows a b else specPrecedes a b
-        some s!"{showOB m}/{showB sp}{if inS then "" else "!"}"
+        some s!"{showOB m}/{showB sp}{if wrong then "!" else ""}"
       | _, _, _ => some "bad"
     else none
   | ["reget", f, k] =>
